@@ -7,9 +7,12 @@
 (*           max, max-1, 2^k and 2^k +- 1 (and their negatives) for the    *)
 (*           exponents Ks(T), floor(sqrt(max)) and its neighbours          *)
 (*   core    the subset all of whose PAIRS are exercised                   *)
-(*   pairs   pairs that straddle the limits: products 2^i * 2^(w-i) with   *)
-(*           +-1 perturbations around max+1, sums max - x + (x | x+1),     *)
-(*           min + x - (x | x+1), squares around sqrt(max), min / -1 ...   *)
+(*   must    pairs at the limits, executed by every run: sums              *)
+(*           max - x + (x | x+1), min + x - (x | x+1), squares around      *)
+(*           sqrt(max), min / -1, all pairs of {min, min+1, -1, 0, 1,      *)
+(*           max-1, max}                                                   *)
+(*   pairs   products 2^i * 2^(w-i) with +-1 perturbations around max+1    *)
+(*           (sampled by seed in the quick tier)                           *)
 (*   amounts shift amounts: 0 .. width+1, around 2^63 / 2^64, the type's   *)
 (*           maximum, negative amounts                                     *)
 (* The driver adds VERIF_SEED-seeded random operands; everything it        *)
@@ -95,8 +98,15 @@ FixPairs(T) ==
           \cup UNION {SignPairs(T, x, y) : x \in {T.max, ZSub(T.max, ZOne), ZFloorShr(T.max, 1), ZAdd(ZFloorShr(T.max, 1), ZOne)},
                                            y \in Around(T.factor) \cup Around(ZMulSmall(T.factor, 2)) \cup {ZOne, ZFromInt(2), ZFromInt(3)}}
 
-Pairs(T) == {p \in ProductPairs(T) \cup SumPairs(T) \cup SquarePairs(T) \cup DivPairs(T) \cup FixPairs(T) :
-               InRange(T, p[1]) /\ InRange(T, p[2])}
+\* every pair of the limits and of 0, +-1
+LimitPairs(T) == LET L == Keep(T, Limits(T) \cup {ZMinusOne, ZZero, ZOne}) IN L \X L
+
+InT(T, S) == {p \in S : InRange(T, p[1]) /\ InRange(T, p[2])}
+
+\* pairs every run executes for every binary operation (small sets around the limits) ...
+MustPairs(T) == InT(T, SumPairs(T) \cup SquarePairs(T) \cup DivPairs(T) \cup LimitPairs(T))
+\* ... and the large families, which the quick tier samples by seed
+Pairs(T) == InT(T, ProductPairs(T) \cup FixPairs(T))
 
 \* shift amounts; for the unbounded types amounts in (MaxExactShift, 2^64) are excluded (see Bits)
 Amounts(T) ==
@@ -117,7 +127,7 @@ Sorted(S) == S       \* ToJson prints a set as an array; the driver sorts
 Emit == LET T == Full(TypeOf(tn))
         IN /\ ZIsFloorSqrt(IF T.bits = 0 THEN ZPow2(200) ELSE T.max, SqrtMax(T))     \* generator sanity
            /\ PrintT(ToJson([t |-> tn, vals |-> Boundary(T), core |-> Core(T),
-                             pairs |-> Pairs(T), amounts |-> Amounts(T),
+                             must |-> MustPairs(T), pairs |-> Pairs(T), amounts |-> Amounts(T),
                              \* the spec's type table, compared with sema's declarations by the check
                              signed |-> T.signed, bits |-> T.bits, word |-> T.word, scale |-> T.scale,
                              hasmin |-> HasMin(T), hasmax |-> HasMax(T), min |-> T.min, max |-> T.max]))
